@@ -414,3 +414,5 @@ ASSUMPTIONS = [
 ]
 OUTSIDE = ['the same map or handle object inserted at two places', 'split_char reassigned / other separators',
            'non-string keys (assert)', 'histories longer than the bound, names outside the alphabet']
+
+TECHNIQUE = 'bounded symbolic execution (symx/z3) of insertion/clear histories over resource trees, tree reference model'
